@@ -1,5 +1,6 @@
 import JT.Proof.GoFrame
 import JT.Proof.GoModel
+import JT.Proof.GoModelBcd
 /-!
 # C03 — the frame-level decoders as they stand in the source are total
 
@@ -77,5 +78,23 @@ theorem source_list_decoders_total (fuel : Nat) (j : Gen.GoFrame.jt808_JTMessage
    fun t => (Go.X.isOk_iff _).mp (Gen.GoModel.P0x9212_Parse_total fuel t j hf),
    fun t => (Go.X.isOk_iff _).mp (Gen.GoModel.P0x8800_Parse_total fuel t j hf),
    fun t => (Go.X.isOk_iff _).mp (Gen.GoModel.T0x0805_Parse_total fuel t j hf)⟩
+
+/-- **Decoders that convert BCD timestamps, as translated from the source, never panic** — `utils.BCD2Time` (a loop writing
+two digits per byte into a buffer of twice the length, then slicing six two-digit groups apart) is translated too and
+proved total (loop invariant on the buffer length); with it the `Parse` methods of 0x9201, 0x9202, 0x9205, 0x9206 and
+0x1005 return a value for every body and every receiver once the loop budget exceeds the body length. -/
+theorem source_time_decoders_total (fuel : Nat) (j : Gen.GoFrame.jt808_JTMessage) (hf : j.Body.length < fuel) :
+    (∀ b : Bytes, b.length < fuel → ∃ s, Gen.GoModel.utils_BCD2Time fuel b = .ok s) ∧
+    (∀ t : Gen.GoModel.model_P0x9201, ∃ r, Gen.GoModel.model_P0x9201_Parse fuel t j = .ok r) ∧
+    (∀ t : Gen.GoModel.model_P0x9202, ∃ r, Gen.GoModel.model_P0x9202_Parse fuel t j = .ok r) ∧
+    (∀ t : Gen.GoModel.model_P0x9205, ∃ r, Gen.GoModel.model_P0x9205_Parse fuel t j = .ok r) ∧
+    (∀ t : Gen.GoModel.model_P0x9206, ∃ r, Gen.GoModel.model_P0x9206_Parse fuel t j = .ok r) ∧
+    (∀ t : Gen.GoModel.model_T0x1005, ∃ r, Gen.GoModel.model_T0x1005_Parse fuel t j = .ok r) :=
+  ⟨fun b hb => ⟨_, Gen.GoModel.BCD2Time_ok fuel b hb⟩,
+   fun t => (Go.X.isOk_iff _).mp (Gen.GoModel.P0x9201_Parse_total fuel t j hf),
+   fun t => (Go.X.isOk_iff _).mp (Gen.GoModel.P0x9202_Parse_total fuel t j hf),
+   fun t => (Go.X.isOk_iff _).mp (Gen.GoModel.P0x9205_Parse_total fuel t j hf),
+   fun t => (Go.X.isOk_iff _).mp (Gen.GoModel.P0x9206_Parse_total fuel t j hf),
+   fun t => (Go.X.isOk_iff _).mp (Gen.GoModel.T0x1005_Parse_total fuel t j hf)⟩
 
 end JT.C03
